@@ -30,7 +30,7 @@ var argKinds = []struct {
 	{"array", []string{"[1,2,3]", "[]", `["a","b"]`, "[1]", `[{"a":1},{"a":2}]`}},
 	{"nested-array", []string{"[[1,2],[3]]", "[[]]", `[[["x"]],1]`}},
 	{"object", []string{`{"a":1}`, "{}", `{"a":{"b":[1,2]},"c":"x"}`}},
-	{"function", []string{"$sum", "function($x){$x}", "function($x,$y){$x}", "$substring(?,1)", "/a/", "function(){1}"}},
+	{"function", []string{"$sum", "function($x){$x}", "function($x,$y){$x}", "$substring(?,1)", "/a/", "function(){1}", "($string ~> $uppercase)", "|$|{\"t\":1}|"}},
 	{"missing", []string{"nothing", "$nothing"}},
 	{"input", []string{"$", "a", "b.c", "*", "**"}},
 }
@@ -52,7 +52,23 @@ func sweepSize() int64 {
 			p *= int64(len(argKinds))
 		}
 	}
+	// every kind of function value called with 0..2 arguments
+	for range fnValues {
+		p := int64(1)
+		for a := 0; a <= 2; a++ {
+			n += p
+			p *= int64(len(argKinds))
+		}
+	}
 	return n
+}
+
+// function values of every kind (built-in, lambdas, typed lambdas, partial,
+// composition, transform, regex, the next() of a match)
+var fnValues = []string{
+	"$sum", "function(){1}", "function($x){$x}", "function($x,$y,$z){[$x,$y,$z]}", "function($x)<n>{$x}", "function($x,$y)<s-n?>{$x}", "function($x)<x+>{$x}",
+	"$substring(?, 1)", "$append(?, ?)", "($string ~> $uppercase)", "($sum ~> $string ~> $length)", "(function($x){$x} ~> $count)", "|$|{\"t\":1}|", "/a(b)?/", "/a/(\"abab\").next",
+	"($uppercase ~> /A/)", "$each(?, function($v,$k){$k})",
 }
 
 // sweepCase returns the i-th call of the systematic sweep.
@@ -93,6 +109,29 @@ func sweepCase(i int64, r *prng.R) (string, string) {
 					prog = "a." + prog // context-defaulting form under a path
 				}
 				return prog, fmt.Sprintf("sweep:%s/%d", b.Name, a)
+			}
+			i -= p
+			p *= int64(len(argKinds))
+		}
+	}
+	for fi, f := range fnValues {
+		p := int64(1)
+		for a := 0; a <= 2; a++ {
+			if i < p {
+				args := make([]string, a)
+				for j := a - 1; j >= 0; j-- {
+					k := argKinds[i%int64(len(argKinds))]
+					i /= int64(len(argKinds))
+					args[j] = k.Alts[r.Intn(len(k.Alts))]
+				}
+				call := "(" + f + ")(" + strings.Join(args, ", ") + ")"
+				if strings.HasPrefix(f, "$") && !strings.ContainsAny(f, "(~ ") {
+					call = f + "(" + strings.Join(args, ", ") + ")"
+				}
+				if r.Intn(4) == 0 && a > 0 {
+					call = args[0] + " ~> (" + f + ")(" + strings.Join(args[1:], ", ") + ")"
+				}
+				return call, fmt.Sprintf("sweep-fnvalue:%d/%d", fi, a)
 			}
 			i -= p
 			p *= int64(len(argKinds))
@@ -181,9 +220,15 @@ func init() {
 				nRand = 2000000
 			}
 			nBad := int64(2000)
-			return &fw.Plan{N: nSweep + nRand + nBad,
-				Subspaces: []string{fmt.Sprintf("all %d (built-in, arity<=3, argument-kind tuple) combinations", nSweep)},
+			nNF := int64(len(c10NonFinite) * len(c10NonFiniteDocs))
+			return &fw.Plan{N: nSweep + nRand + nBad + nNF,
+				Subspaces: []string{fmt.Sprintf("all %d (built-in, arity<=3, argument-kind tuple) combinations", nSweep), fmt.Sprintf("%d arithmetic programs whose mathematical result is not a finite number", nNF)},
 				Run: func(i int64, r *fw.Rec) {
+					if i >= nSweep+nRand+nBad {
+						j := i - nSweep - nRand - nBad
+						c10Run(r, evalCase{prog: c10NonFinite[j/int64(len(c10NonFiniteDocs))], doc: c10NonFiniteDocs[j%int64(len(c10NonFiniteDocs))], kind: "non-finite-probe", det: true})
+						return
+					}
 					if i >= nSweep+nRand {
 						c10Malformed(r, i-nSweep-nRand, seed)
 						return
@@ -451,4 +496,18 @@ func c10Malformed(r *fw.Rec, i int64, seed uint64) {
 	}
 	r.Held()
 	r.Sample("malformed", map[string]any{"prog": prog, "bytes": in, "json_valid": jerr == nil, "evalbytes_error": fmt.Sprint(berr)})
+}
+
+// programs whose mathematical result is infinite or not a number: whatever the
+// library returns for them, a nil-error result must still be a finite number
+var c10NonFinite = []string{
+	"x % z", "z % z", "5 % 0", "big * big", "-big * big", "z / z", "x / z", "-x / z", "big + big", "-big - big", "$power(big, 2)", "$power(z, -1)", "$power(-8, 1/3)",
+	"$sqrt(-x)", "$sum([big, big])", "$average([big, big, -1])", "$max([big, big]) * 2", "[x % z]", "{\"v\": z / z}", "(x % z) = (x % z)", "$string(x % z)", "$round(big * 10)",
+	"$abs(-big * 10)", "$floor(z / z)", "$number(\"1e999\")", "$formatNumber(x / z, \"0.0\")", "$formatBase(x / z)", "arr.($ % $$.z)", "$map(arr, function($v){$v / $$.z})", "$reduce(arr, function($a,$b){$a * $$.big * $b})",
+	"$sort(arr, function($l,$r){($l % $$.z) > 1})", "arr^($ % $$.z)", "arr[$ % $$.z]", "$$.big ~> $power(3)", "tiny / big / big", "tiny * tiny",
+}
+
+var c10NonFiniteDocs = []string{
+	`{"x":5,"z":0,"big":1e308,"tiny":5e-324,"arr":[1,2,3]}`,
+	`{"x":-2.5,"z":-0,"big":1.7976931348623157e308,"tiny":1e-300,"arr":[0]}`,
 }
